@@ -25,20 +25,25 @@ enum Item {
 
 fn show(items: &[Item], out: &mut String, rng: &mut Rng) {
 	for it in items {
-		if rng.chance(2, 3) { out.push(' '); }
+		if rng.chance(2, 3) { out.push(if rng.chance(7, 8) { ' ' } else { *rng.pick(&['\t', '\n', '\r']) }); }
 		match it {
-			Item::Byte(b) => out.push_str(&if rng.chance(1, 2) { format!("{:02x}", b) } else { format!("{:02X}", b) }),
+			Item::Byte(b) => out.push_str(&match rng.below(4) { 0 => format!("{:02x}", b), 1 => format!("{:02X}", b),
+				2 => format!("{:x}{:X}", b >> 4, b & 15), _ => format!("{:X}{:x}", b >> 4, b & 15) }),
 			Item::Str(s) => { out.push('"'); out.push_str(std::str::from_utf8(s).unwrap()); out.push('"'); },
 			Item::Wild(n) => for _ in 0..*n { out.push('?'); },
-			Item::SkipN(n) => out.push_str(&format!("[{}]", n)),
-			Item::Range(a, b) => out.push_str(&format!("[{}-{}]", a, b)),
+			Item::SkipN(n) => { let z = if rng.chance(1, 8) { "0".repeat(rng.range(1, 3) as usize) } else { String::new() }; out.push_str(&format!("[{}{}]", z, n)) },
+			Item::Range(a, b) => { let z = if rng.chance(1, 8) { "0" } else { "" }; out.push_str(&format!("[{}{}-{}{}]", z, a, z, b)) },
 			Item::Save => out.push('\''),
 			Item::Read(s, n) => out.push_str(&format!("{}{}", if *s { 'i' } else { 'u' }, n)),
 			Item::Zero => out.push('z'),
-			Item::Align(k) => out.push_str(&format!("@{}", if *k < 10 { (b'0' + k) as char } else { (b'a' + k - 10) as char })),
+			Item::Align(k) => out.push_str(&format!("@{}", if *k < 10 { (b'0' + k) as char } else if rng.chance(1, 2) { (b'a' + k - 10) as char } else { (b'A' + k - 10) as char })),
 			Item::Jump(k, sub, braces) => {
 				out.push(match k { 1 => '%', 4 => '$', _ => '*' });
-				if *braces { out.push('{'); show(sub, out, rng); out.push('}'); } else { show(sub, out, rng); }
+				if *braces {
+					// reading decision R1 of Spec/PatRead.v: whitespace and items that denote nothing may stand between a jump symbol and its brace
+					if rng.chance(1, 6) { out.push_str(*rng.pick(&[" ", "\"\"", "[0]", " \"\" ", "\t[00]\n", "\"\"[0]"])); }
+					out.push('{'); show(sub, out, rng); out.push('}');
+				} else { show(sub, out, rng); }
 			},
 			Item::Alt(alts) => {
 				out.push('(');
@@ -262,23 +267,79 @@ fn random_text(rng: &mut Rng) -> Vec<u8> {
 }
 
 /// F40 shapes: braces that are not balanced inside an alternative (parse errors on both sides since the repair), and the two
-/// neighbouring shapes the parser still accepts (a '}' closing a brace opened before the group with a '{' reopening it; a '{'
-/// right behind a ')').  Flat items are printed from the grammar so that the error position varies.
+/// neighbouring shapes the parser accepted until F42 / F43 (a '}' closing a brace opened before the group with a '{' reopening
+/// it; a '{' right behind a ')') - the grammar oracle of the driver (Spec/PatRead.v) found them; parse errors on both sides
+/// now.  Flat items are printed from the grammar so that the error position varies.
 fn unbalanced_text(rng: &mut Rng) -> String {
 	let mut part = |rng: &mut Rng| -> String { let n = rng.below(3) as usize; let mut t = String::new(); show(&gen_flat(rng, n, true), &mut t, rng); t };
 	let j = *rng.pick(&["%", "$", "*"]);
 	let (a, b, c, pre, post) = (part(rng), part(rng), part(rng), part(rng), part(rng));
-	match rng.below(9) {
+	match rng.below(12) {
+		// nested groups: the INNER group closes a brace that was opened inside the outer group (the floor of '}' is the depth at
+		// the innermost '(' - not at the outermost one, not zero), in the first / a later alternative, with the outer group inside a brace
+		9 => format!("{} ( {} {}{{ ( {} }} {}{{ | {} ) }} ) {}", pre, a, j, b, j, c, post),
+		10 => format!("{} ( {} | {}{{ ( {} | {} }} {}{{ ) }} {} ) {}", pre, a, j, b, c, j, post, post),
+		11 => format!("{}{{ ( {} {}{{ ( {} }} {}{{ ) }} | {} ) }} {}", j, pre, j, a, j, b, post),
 		0 => format!("{} ( {} {}{{ {} | {} ) {} 01", pre, a, j, b, c, post),            // open at '|'
 		1 => format!("{} ( {} | {} {}{{ {} ) {} 01", pre, a, b, j, c, post),            // open at ')'
 		2 => format!("{} {}{{ ( {} }} | {} ) }} {}", pre, j, a, b, post),               // one too many closed at '|'
 		3 => format!("{} ( {} {}{{ {} | {} }} ) {}", pre, a, j, b, c, post),            // opened in one alternative, closed in the next
 		4 => format!("{} {}{{ ( {} | {} }} ) {}", pre, j, a, b, post),                  // one too many closed at ')'
 		5 => format!("{} ( {} ( {} {}{{ | {} ) }} | {} ) {}", pre, a, b, j, c, b, post), // inner group unbalanced, outer balanced
-		6 => format!("{} {}{{ ( {} }} {}{{ | {} ) }} {} 03", pre, j, a, j, b, post),    // accepted: depth is back at '|'
-		7 => format!("{} ( {} | {} {} ) {{ {} }} {} 03", pre, a, b, j, c, post),        // accepted: '{' behind ')'
+		6 => format!("{} {}{{ ( {} }} {}{{ | {} ) }} {} 03", pre, j, a, j, b, post),    // F43 (was accepted: depth is back at '|')
+		7 => format!("{} ( {} | {} {} ) {{ {} }} {} 03", pre, a, b, j, c, post),        // F42 (was accepted: '{' behind ')')
 		_ => format!("{}01", "(%{|?)".repeat(rng.range(1, 40) as usize)),                 // the exponential family itself
 	}
+}
+
+/// accepted-but-odd strings (and their rejected neighbours): a token soup over the whole operator alphabet in which every pair
+/// of operators becomes adjacent - '{' behind ')', '}', '{', '?', a bookmark, a byte, a string; ')' right behind '('; '|' at the
+/// edges of a group; null items between a jump and its brace - with brackets closed in the right order most of the time,
+/// hex digits of both cases, and spaces / tabs / line ends / nothing between the tokens.  The grammar oracle of the driver
+/// (Spec/PatRead.v) decides for each string whether the documented syntax contains it.
+fn odd_text(rng: &mut Rng) -> String {
+	const POOL: &[&str] = &["01", "ab", "AB", "aB", "7f", "?", "??", "'", "%", "$", "*", "{", "}", "(", "|", ")", "[2]", "[0]", "[00]", "[1-3]", "[0-2]", "[02]",
+		"\"\"", "\"ab\"", "i1", "u4", "z", "@2", "@a", "@Z"];
+	let mut out = String::new();
+	let mut stack: Vec<char> = Vec::new();
+	let n = rng.range(2, 12) as usize;
+	let sep = rng.below(4);   // 0: nothing, 1: single spaces, 2: mixed whitespace, 3: random
+	let mut push_sep = |out: &mut String, rng: &mut Rng| {
+		match sep { 0 => {}, 1 => out.push(' '), 2 => out.push(*rng.pick(&[' ', '\t', '\n', '\r'])), _ => if rng.chance(1, 2) { out.push(*rng.pick(&[' ', ' ', '\t', '\n'])) } }
+	};
+	// one time in three the string is built around a chosen adjacent pair
+	if rng.chance(1, 3) {
+		let x = *rng.pick(POOL); let y = *rng.pick(POOL);
+		let pre = *rng.pick(&["", "01", "%", "(", "%{", "(01|", "(%", "%{(", "$"]);
+		for ch in pre.chars() { match ch { '{' => stack.push('}'), '(' => stack.push(')'), _ => {} } }
+		out.push_str(pre); push_sep(&mut out, rng);
+		for t in [x, y] {
+			match t { "{" => stack.push('}'), "(" => stack.push(')'), "}" | ")" => { if stack.last() == t.chars().next().as_ref() { stack.pop(); } }, _ => {} }
+			out.push_str(t); push_sep(&mut out, rng);
+		}
+		if rng.chance(1, 2) { out.push_str("02"); push_sep(&mut out, rng); }
+	} else {
+		for _ in 0..n {
+			let t = *rng.pick(POOL);
+			match t {
+				"{" => { if rng.chance(3, 4) && !out.trim_end().ends_with(|c| c == '%' || c == '$' || c == '*') { out.push(*rng.pick(&['%', '$', '*'])); if rng.chance(1, 4) { push_sep(&mut out, rng); } } stack.push('}'); out.push('{'); },
+				"(" => { stack.push(')'); out.push('('); },
+				"}" | ")" => {
+					let c = t.chars().next().unwrap();
+					if stack.last() == Some(&c) { stack.pop(); out.push(c); }
+					else if rng.chance(1, 6) { out.push(c); }       // a closer that closes nothing, or the wrong one
+					else if let Some(top) = stack.pop() { out.push(top); }
+				},
+				"|" => { if stack.last() == Some(&')') || rng.chance(1, 6) { out.push('|'); } },
+				_ => out.push_str(t),
+			}
+			push_sep(&mut out, rng);
+		}
+	}
+	// close what is open, in the right order nine times in ten
+	if rng.chance(9, 10) { while let Some(c) = stack.pop() { out.push(c); push_sep(&mut out, rng); } }
+	if rng.chance(1, 2) { out.push_str("03"); }
+	out
 }
 
 /// raw atom lists over ALL atom kinds (the parser never emits Back, Pir, VTypeName, Check, Fuzzy, Skip(0)/Back(0)/Push(0)
@@ -354,6 +415,7 @@ fn gen_raw(rng: &mut Rng) -> String {
 fn gen(rng: &mut Rng, _i: u64) -> String {
 	// one case in ten: a raw atom list (kind exec with an explicit atoms= field); decided first so that the other streams keep their proportions
 	if rng.below(10) == 0 { return gen_raw(rng); }
+	if rng.below(8) == 0 { return format!("parse text={}", hex(odd_text(rng).as_bytes())); }
 	match rng.below(10) {
 		0 | 1 => format!("parse text={}", hex(&random_text(rng))),
 		3 => {
@@ -451,9 +513,12 @@ fn gen(rng: &mut Rng, _i: u64) -> String {
 			let slots = match rng.below(5) { 0 => 0, 1 => 1, 2 => syn.saves.len().saturating_sub(1), _ => syn.saves.len() + rng.below(3) as usize };
 			let mut toks = Vec::new();
 			ast_tokens(&items, &mut toks);
-			format!("exec fmt={} file={} {} soh={} soi={} base={} secs={} text={} atoms=- cursor={} slots={} expect={} saves={} ast={}",
+			// one case in eight goes without the generator's AST: the semantic oracle then runs on the AST the independent reader
+			// of Spec/PatRead.v finds in the text
+			let ast_field = if rng.chance(1, 8) { String::new() } else { format!(" ast={}", join(&toks, ",")) };
+			format!("exec fmt={} file={} {} soh={} soi={} base={} secs={} text={} atoms=- cursor={} slots={} expect={} saves={}{}",
 				if pe64 { 64 } else { 32 }, file as u8, img.encode(), spec.soh, spec.soi, image_base, secs_field(&spec.secs), hex(text.as_bytes()),
-				sec_va + lay_off as u32, slots, expect, join(&syn.saves, ","), join(&toks, ","))
+				sec_va + lay_off as u32, slots, expect, join(&syn.saves, ","), ast_field)
 		},
 	}
 }
